@@ -131,8 +131,18 @@ class Built:
         self.considered = [self.classes[c["name"]] for c in spec["classes"]
                            if not (start_abs and c["name"] == spec["start"])]
 
+    raw = False
+
     def dispose(self):
         sys.modules.pop(self.module.__name__, None)
+
+    def oracle(self):
+        """the typing oracle: field types read from the classes with typing.get_type_hints; abstract flags and weights
+        as WRITTEN in the specification the classes were generated from (the decorators keep them in a per-class dict
+        that the library reads too)"""
+        from harness.proj import declared_grammar
+        d = declared_grammar(list(self.classes.values()), self.start)
+        return d if self.raw else declared_from_spec(d, self.spec)
 
 
 def build(spec) -> Built:
@@ -552,7 +562,9 @@ def build_raw(raw) -> Built:
     spec = {"id": raw["id"], "start": raw["start"],
             "classes": [{"name": n, "abstract": n == raw["start"], "parent": "", "fields": []} for n in raw["names"]],
             "feats": raw.get("feats", [])}
-    return Built(spec, mod, raw["source"])
+    b = Built(spec, mod, raw["source"])
+    b.raw = True
+    return b
 
 
 def lang_size(spec, d, cap=10 ** 7):
